@@ -94,6 +94,7 @@ def build(recipe):
     if recipe == 'extended':
         from pylatexenc.macrospec import MacroSpec, EnvironmentSpec
         base = default_db()
+        base.freeze()       # extended_with() requires a frozen database
         return base.extended_with(
             'pv-ext',
             macros=[MacroSpec('mcombo', '*[{{'), MacroSpec('mv', ['v'])],
